@@ -332,3 +332,246 @@ Proof.
     injection Hw as <-. rewrite as_model_seq, (as_model_list_fixed _ _ IH El). reflexivity.
   - destruct v; try contradiction; cbn in Hw; try discriminate Hw; injection Hw as <-; reflexivity.
 Qed.
+
+(* ------------------------------------------------------------------ the heap version: _seen is restored *)
+Fixpoint map_h (f : list nat -> nat -> hres * list nat) (l : list nat) (s : list nat) : (list value + hres) * list nat :=
+  match l with
+  | [] => (inl [], s)
+  | x :: r =>
+      match f s x with
+      | (HOk w, s') =>
+          match map_h f r s' with
+          | (inl ws, s'') => (inl (w :: ws), s'')
+          | (inr e, s'') => (inr e, s'')
+          end
+      | (e, s') => (inr e, s')
+      end
+  end.
+
+Lemma as_model_h_S f h seen a :
+  as_model_h (S f) h seen a =
+  if in_seen a seen then (HErr ECycle, seen)
+  else match nth_error h a with
+       | None => (HErr EUnmodelled, seen)
+       | Some (HAtom v) => (of_res (as_model v), seen)
+       | Some (HCont c items) =>
+           let seen1 := if tracked c then a :: seen else seen in
+           let '(r, seen2) := map_h (as_model_h f h) items seen1 in
+           let seen3 := if tracked c then seen_remove a seen2 else seen2 in
+           (match r with inl vs => of_res (build c vs) | inr e => e end, seen3)
+       end.
+Proof.
+  cbn [as_model_h]. destruct (in_seen a seen); [reflexivity|].
+  destruct (nth_error h a) as [[v|c items]|]; try reflexivity.
+  assert (L : forall l s,
+    (fix go (l : list nat) (s : list nat) : (list value + hres) * list nat :=
+       match l with
+       | [] => (inl [], s)
+       | x :: r =>
+           match as_model_h f h s x with
+           | (HOk w, s') =>
+               match go r s' with
+               | (inl ws, s'') => (inl (w :: ws), s'')
+               | (inr e, s'') => (inr e, s'')
+               end
+           | (e, s') => (inr e, s')
+           end
+       end) l s = map_h (as_model_h f h) l s).
+  { induction l as [|x r IH]; intros s; [reflexivity|]. cbn [map_h].
+    destruct (as_model_h f h s x) as [[w|e|] s']; try reflexivity. rewrite IH. reflexivity. }
+  rewrite L. reflexivity.
+Qed.
+
+Lemma map_h_seen f l : (forall s x, snd (f s x) = s) -> forall s, snd (map_h f l s) = s.
+Proof.
+  intros Hf. induction l as [|x r IH]; intros s; [reflexivity|].
+  cbn [map_h]. pose proof (Hf s x) as Hx. destruct (f s x) as [[w|e|] s']; cbn [snd] in Hx; subst s'; try reflexivity.
+  pose proof (IH s) as Hr. destruct (map_h f r s) as [[ws|e] s'']; cbn [snd] in Hr |- *; exact Hr.
+Qed.
+
+Lemma seen_remove_fresh a seen : in_seen a seen = false -> seen_remove a seen = seen.
+Proof.
+  unfold in_seen, seen_remove. induction seen as [|b r IH]; [reflexivity|].
+  cbn [existsb filter]. intros H. apply orb_false_iff in H. destruct H as [H1 H2].
+  rewrite H1. cbn [negb]. rewrite (IH H2). reflexivity.
+Qed.
+
+Lemma seen_remove_cons a seen : in_seen a seen = false -> seen_remove a (a :: seen) = seen.
+Proof.
+  intros H. unfold seen_remove. cbn [filter]. rewrite Nat.eqb_refl. cbn [negb]. apply (seen_remove_fresh a seen H).
+Qed.
+
+(* (4) after ANY outcome -- a result, an error at any depth, or running out of fuel -- _seen is what it was *)
+Theorem seen_restored fuel : forall h seen a, snd (as_model_h fuel h seen a) = seen.
+Proof.
+  induction fuel as [|f IH]; intros h seen a; [reflexivity|].
+  rewrite as_model_h_S. destruct (in_seen a seen) eqn:Es; [reflexivity|].
+  destruct (nth_error h a) as [[v|c items]|]; try reflexivity.
+  cbv zeta.
+  pose proof (map_h_seen (as_model_h f h) items (fun s x => IH h s x) (if tracked c then a :: seen else seen)) as Hm.
+  destruct (map_h (as_model_h f h) items (if tracked c then a :: seen else seen)) as [r seen2].
+  cbn [snd] in Hm |- *. subst seen2. destruct (tracked c); [apply seen_remove_cons; exact Es | reflexivity].
+Qed.
+
+(* hence every call of a history behaves as if it were the first one *)
+Theorem history_independent fuel calls seen :
+  run_history fuel calls seen = (map (fun c => fst (as_model_h fuel (fst c) seen (snd c))) calls, seen).
+Proof.
+  induction calls as [|[h a] r IH]; [reflexivity|].
+  cbn [run_history map fst snd]. pose proof (seen_restored fuel h seen a) as Hs.
+  destruct (as_model_h fuel h seen a) as [o seen']. cbn [snd fst] in Hs |- *. subst seen'.
+  rewrite IH. reflexivity.
+Qed.
+
+(* ------------------------------------------------------------------ (3) self-referential structures *)
+Lemma reach_trans h a b c : reach h a b -> reach h b c -> reach h a c.
+Proof. induction 1 as [a|a b0 b Hc _ IH]; intros H; [exact H | exact (reach_step h a b0 c Hc (IH H))]. Qed.
+
+Lemma map_h_ok f l s vs s' : map_h f l s = (inl vs, s') ->
+  (forall s0 x, snd (f s0 x) = s0) -> forall x, In x l -> exists w, fst (f s x) = HOk w.
+Proof.
+  intros H Hf. revert s vs s' H. induction l as [|y r IH]; intros s vs s' H x Hx; [destruct Hx|].
+  cbn [map_h] in H. pose proof (Hf s y) as Hy. destruct (f s y) as [[w|e|] s1] eqn:Ey; try discriminate H.
+  cbn [snd] in Hy. subst s1.
+  destruct (map_h f r s) as [[ws|e] s2] eqn:Er; [|discriminate H].
+  destruct Hx as [<-|Hx]; [exists w; rewrite Ey; reflexivity | exact (IH s ws s2 Er x Hx)].
+Qed.
+
+Lemma map_h_err f l : forall s e s', map_h f l s = (inr e, s') -> forall w, e <> HOk w.
+Proof.
+  induction l as [|y r IH]; intros s e s' H w; [discriminate H|].
+  cbn [map_h] in H. destruct (f s y) as [[w0|e0|] s1].
+  - destruct (map_h f r s1) as [[ws|e1] s2] eqn:Er; [discriminate H|]. injection H as <- <-. exact (IH _ _ _ Er w).
+  - injection H as <- <-. discriminate.
+  - injection H as <- <-. discriminate.
+Qed.
+
+(* a successful promotion met nothing that was being wrapped: no address reachable from a is in _seen *)
+Lemma ok_reach_unseen fuel : forall h seen a w, fst (as_model_h fuel h seen a) = HOk w ->
+  forall b, reach h a b -> in_seen b seen = false.
+Proof.
+  induction fuel as [|f IH]; intros h seen a w H b Hr; [discriminate H|].
+  rewrite as_model_h_S in H. destruct (in_seen a seen) eqn:Es; [discriminate H|].
+  destruct (nth_error h a) as [[v|c items]|] eqn:En; [| |discriminate H].
+  - destruct Hr as [a|a b0 b [c' [items' [Hn _]]] _]; [exact Es|]. rewrite En in Hn. discriminate Hn.
+  - cbv zeta in H.
+    destruct (map_h (as_model_h f h) items (if tracked c then a :: seen else seen)) as [[vs|e] seen2] eqn:Em.
+    2:{ cbn [fst] in H. exfalso. exact (map_h_err _ _ _ _ _ Em w H). }
+    destruct Hr as [a|a b0 b [c' [items' [Hn Hin]]] Hr']; [exact Es|].
+    rewrite En in Hn. injection Hn as <- <-.
+    destruct (map_h_ok _ _ _ _ _ Em (fun s x => seen_restored f h s x) b0 Hin) as [w0 Hw0].
+    pose proof (IH h _ b0 w0 Hw0 b Hr') as Hb.
+    destruct (tracked c); [|exact Hb]. unfold in_seen in Hb |- *. cbn [existsb] in Hb.
+    apply orb_false_iff in Hb. exact (proj2 Hb).
+Qed.
+
+(* a structure that contains itself is never promoted: whatever the fuel, the outcome is not a model *)
+Theorem cycle_never_ok fuel : forall h seen a, self_referential h a ->
+  forall w, fst (as_model_h fuel h seen a) <> HOk w.
+Proof.
+  induction fuel as [|f IH]; intros h seen a [b [Hc Hr]] w H; [discriminate H|].
+  pose proof H as H0.
+  rewrite as_model_h_S in H. destruct (in_seen a seen) eqn:Es; [discriminate H|].
+  destruct Hc as [c [items [En Hin]]]. rewrite En in H. cbv zeta in H.
+  destruct (map_h (as_model_h f h) items (if tracked c then a :: seen else seen)) as [[vs|e] seen2] eqn:Em.
+  2:{ cbn [fst] in H. exact (map_h_err _ _ _ _ _ Em w H). }
+  destruct (map_h_ok _ _ _ _ _ Em (fun s x => seen_restored f h s x) b Hin) as [w0 Hw0].
+  (* b is self-referential as well *)
+  assert (Hb : self_referential h b).
+  { inversion Hr as [|x b1 y Hc1 Hr1]; subst.
+    - exists a. split; [exists c, items; split; assumption | apply reach_refl] || (exists b; split; [exists c, items; split; assumption | apply reach_refl]).
+    - exists b1. split; [exact Hc1|]. apply (reach_trans h b1 a b Hr1).
+      apply (reach_step h a b b); [exists c, items; split; assumption | apply reach_refl]. }
+  exact (IH h _ b Hb w0 Hw0).
+Qed.
+
+(* with a tracked container the guard itself fires: an element that leads back to a is met while a is in _seen *)
+Theorem guard_fires fuel h seen a c items b :
+  nth_error h a = Some (HCont c items) -> tracked c = true -> In b items -> reach h b a ->
+  forall w, fst (as_model_h fuel h (a :: seen) b) <> HOk w.
+Proof.
+  intros _ _ _ Hr w H. pose proof (ok_reach_unseen fuel h (a :: seen) b w H a Hr) as Hs.
+  unfold in_seen in Hs. cbn [existsb] in Hs. rewrite Nat.eqb_refl in Hs. discriminate Hs.
+Qed.
+
+(* ------------------------------------------------------------------ fuel only matters until the outcome is defined *)
+Lemma map_h_mono (f g : list nat -> nat -> hres * list nat) l :
+  (forall s x o s', f s x = (o, s') -> o <> HFuel -> g s x = (o, s')) ->
+  forall s r s', map_h f l s = (r, s') -> r <> inr HFuel -> map_h g l s = (r, s').
+Proof.
+  intros Hfg. induction l as [|y q IH]; intros s r s' H Hr; [exact H|].
+  cbn [map_h] in H |- *. destruct (f s y) as [o s1] eqn:Ey.
+  destruct o as [w|e|].
+  - rewrite (Hfg _ _ _ _ Ey ltac:(discriminate)).
+    destruct (map_h f q s1) as [[ws|e1] s2] eqn:Eq.
+    + rewrite (IH _ _ _ Eq ltac:(discriminate)). exact H.
+    + injection H as <- <-. rewrite (IH _ _ _ Eq Hr). reflexivity.
+  - rewrite (Hfg _ _ _ _ Ey ltac:(discriminate)). exact H.
+  - injection H as <- <-. contradiction Hr. reflexivity.
+Qed.
+
+Theorem fuel_mono n : forall h seen a o s, as_model_h n h seen a = (o, s) -> o <> HFuel ->
+  as_model_h (S n) h seen a = (o, s).
+Proof.
+  induction n as [|n IH]; intros h seen a o s H Ho; [cbn in H; injection H as <- _; contradiction Ho; reflexivity|].
+  rewrite as_model_h_S in H. rewrite as_model_h_S.
+  destruct (in_seen a seen); [exact H|].
+  destruct (nth_error h a) as [[v|c items]|]; try exact H.
+  cbv zeta in H |- *.
+  destruct (map_h (as_model_h n h) items (if tracked c then a :: seen else seen)) as [r seen2] eqn:Em.
+  assert (Hr : r <> inr HFuel).
+  { intros ->. injection H as <- _. contradiction Ho. reflexivity. }
+  rewrite (map_h_mono _ (as_model_h (S n) h) items (fun s0 x o0 s0' E N => IH h s0 x o0 s0' E N) _ _ _ Em Hr). exact H.
+Qed.
+
+Corollary cycle_is_error fuel h seen a o s : self_referential h a ->
+  as_model_h fuel h seen a = (o, s) -> o <> HFuel -> exists e, o = HErr e.
+Proof.
+  intros Hc H Ho. destruct o as [w|e|]; [|exists e; reflexivity | contradiction Ho; reflexivity].
+  exfalso. apply (cycle_never_ok fuel h seen a Hc w). rewrite H. reflexivity.
+Qed.
+
+(* ------------------------------------------------------------------ examples *)
+(* l = []; l.append(l) *)
+Definition heap_self_list : heap := [HCont CPyList [0%nat]].
+(* a = [1]; b = [a, {"k": a}]; a.append(b)  -- b at 0, a at 1 *)
+Definition heap_indirect : heap :=
+  [HCont CPyList [1; 2]%nat; HCont CPyList [3; 0]%nat; HCont CPyDict [4; 1]%nat; HAtom (PInt 1); HAtom (PStr [107])].
+(* t = ([],); t[0].append(t) *)
+Definition heap_tuple_list : heap := [HCont CPyTuple [1%nat]; HCont CPyList [0%nat]].
+(* x = [1]; [x, x]: shared, not cyclic *)
+Definition heap_shared : heap := [HCont CPyList [1; 1]%nat; HCont CPyList [2%nat]; HAtom (PInt 1)].
+(* [1, {"k": object()}]: an unwrappable object two levels down *)
+Definition heap_unwrappable : heap := [HCont CPyList [1; 2]%nat; HAtom (PInt 1); HCont CPyDict [3; 4]%nat; HAtom (PStr [107]); HAtom (POpaque 7)].
+
+Lemma example_cycles :
+  as_model_h 10 heap_self_list [] 0 = (HErr ECycle, [])
+  /\ as_model_h 10 heap_indirect [] 0 = (HErr ECycle, [])
+  /\ as_model_h 10 heap_tuple_list [] 0 = (HErr ECycle, [])
+  /\ as_model_h 10 heap_shared [] 0 = (HOk (VSeq KList [VSeq KList [VInt 1]; VSeq KList [VInt 1]]), [])
+  /\ as_model_h 10 heap_unwrappable [] 0 = (HErr EWrapper, []).
+Proof. vm_compute. repeat split. Qed.
+
+Lemma example_self_referential : self_referential heap_indirect 0.
+Proof.
+  exists 1%nat. split; [exists CPyList, [1; 2]%nat; split; [reflexivity | left; reflexivity]|].
+  apply (reach_step _ 1 0 0)%nat; [exists CPyList, [3; 0]%nat; split; [reflexivity | right; left; reflexivity] | apply reach_refl].
+Qed.
+
+(* a plain value with every representable type *)
+Definition example_plain : value :=
+  PList [PInt (-7); PBool true; PBool false; PNone; PFloat f_negzero; PFloat 9221120237041090560; PCpx 0 f_negzero;
+         PStr [97]; PBytes [0; 255]; VKw [107]; PTuple [PInt 1; PList []]; PSet [PInt 1; PStr [97]; PTuple []];
+         PDict [PStr [107]; PList [PInt 3]; PInt 1; PDict []; PBool true; PSet []]].
+Lemma example_plain_ok : plain example_plain = true.
+Proof. vm_compute. reflexivity. Qed.
+
+(* ------------------------------------------------------------------ the registry is what as_model does *)
+Theorem as_model_by_table v : as_model v = as_model_via model_wrappers v.
+Proof.
+  destruct v as [s|s|z|f|re im|s b|b|k items|z|f|re im|s|b|b| |items|items|items|items|n]; try reflexivity.
+  destruct k; reflexivity.
+Qed.
+
+Lemma tracked_bracket c : tracked c = match bracket_of c with BAddTryFinallyRemove => true | BNoGuard => false end.
+Proof. destruct c as [| | | |k]; try reflexivity. destruct k; reflexivity. Qed.
